@@ -937,8 +937,8 @@ func checkLazyHeader(c *core.Ctx, l *core.Ledger, m *wireModel) {
 		var startLoad ssa.Instruction
 		var skipCall ssa.Instruction
 		readerAtOK := false
-		core.Instrs(f, func(in ssa.Instruction) {
-			if call, ok := in.(*ssa.Call); ok && call.Call.StaticCallee() != nil && strings.HasPrefix(call.Call.StaticCallee().Name(), "skip") {
+		core.WalkInlined(f, inlineHelpers("skipListItems", "skipMapItems", "skipStruct", "skipMap", "skipList"), func(in ssa.Instruction, via []*ssa.Call) {
+			if call, ok := in.(*ssa.Call); ok && call.Call.StaticCallee() != nil && strings.HasPrefix(call.Call.StaticCallee().Name(), "skip") && len(via) == 0 {
 				skipCall = in
 			}
 			st, ok := in.(*ssa.Store)
@@ -952,7 +952,15 @@ func checkLazyHeader(c *core.Ctx, l *core.Ledger, m *wireModel) {
 			n := core.FieldOf(fa).Name()
 			got[n] = normRepl.Replace(core.Sym(st.Val))
 			if n == "startOffset" {
-				if ld, ok := st.Val.(*ssa.UnOp); ok {
+				v := st.Val
+				for {
+					if cv, isCv := v.(*ssa.Convert); isCv {
+						v = cv.X
+						continue
+					}
+					break
+				}
+				if ld, ok := core.ArgOf(v).(*ssa.UnOp); ok {
 					startLoad = ld
 				}
 			}
